@@ -30,8 +30,12 @@ func (b *Batcher) Accept(ctx context.Context, logs ...LogWithLedger) ([]error, e
 	for ind, log := range logs {
 		ret, err := b.batcher.Send(ctx, log)
 		if err != nil {
-			itemsErrors[ind] = fmt.Errorf("failed to send log to the batcher: %w", err)
-			continue
+			// The context is done: the rest of the page is not handed over either, otherwise a later log
+			// could still slip through and reach the exporter without its predecessors
+			for i := ind; i < len(logs); i++ {
+				itemsErrors[i] = fmt.Errorf("failed to send log to the batcher: %w", err)
+			}
+			break
 		}
 		operations[ind] = ret
 	}
